@@ -763,3 +763,47 @@ func ipldOptional(src string) map[string]map[string]bool {
 	}
 	return out
 }
+
+// structsMirrorSchemaOrder: the Go structs of the named package list their fields in the order of the IPLD schema
+// they are bound to (bindnode binds by position: two same-typed fields exchanged in the Go struct are exchanged on
+// the wire, and a signature then travels under the wrong key). Shared by C05 (what is signed is what is sent).
+func structsMirrorSchemaOrder(c *Ctx, rule, rel string, names ...string) {
+	p := c.pkg(rel)
+	if p == nil {
+		c.Unk(rule, rel, token.NoPos, "package not found")
+		return
+	}
+	files, _ := filepath.Glob(filepath.Join(c.Repo, rel, "*.ipldsch"))
+	sch := map[string][]string{}
+	for _, sf := range files {
+		if data, err := os.ReadFile(sf); err == nil {
+			for n, fs := range ipldStructs(string(data)) {
+				sch[n] = fs
+			}
+		}
+	}
+	for _, name := range names {
+		tn, ok := p.Types.Scope().Lookup(name).(*types.TypeName)
+		fields, inSch := sch[name]
+		if !ok || !inSch {
+			c.Unk(rule, rel+"."+name, token.NoPos, "struct or schema type not found")
+			continue
+		}
+		st, ok := tn.Type().Underlying().(*types.Struct)
+		if !ok {
+			c.Unk(rule, rel+"."+name, tn.Pos(), "not a struct")
+			continue
+		}
+		var goNames []string
+		for i := 0; i < st.NumFields(); i++ {
+			goNames = append(goNames, st.Field(i).Name())
+		}
+		same := len(goNames) == len(fields)
+		for i := range fields {
+			if same && !strings.EqualFold(goNames[i], fields[i]) {
+				same = false
+			}
+		}
+		c.Check(same, rule, rel+"."+name, tn.Pos(), "Go fields ["+strings.Join(goNames, " ")+"] are the schema's, in the schema's order", "the Go struct's fields ["+strings.Join(goNames, " ")+"] are not the schema's ["+strings.Join(fields, " ")+"] in the same order: bindnode encodes by position, so fields (a signature and the metadata it covers, say) are exchanged on the wire")
+	}
+}
